@@ -246,3 +246,6 @@ PROPS["C16"] = {
     "assumptions": COMMON_M + ["bincode (de)serialization and std::fs::File reads/writes of the tools are arbitrary-outcome events; only positions, lengths and which header is written are tracked",
                                "outside: validate_blob / validate_index acceptance of every storage-produced file, byte-level damage classes, index-reading tools, meta bytes (covered by no checksum in the format)"],
 }
+
+PROPS["C10"]["mir"].append(ob("filter_offsets_agree", "ob_index", "filter_offsets_agree"))
+PROPS["C12"]["mir"].append(ob("fsync_flag_released", "ob_storage", "fsync_flag_released"))
